@@ -42,6 +42,14 @@ def run(tier, seed):
             if ok and (m.name, m.octave) != (n, o):
                 R.fail("Note.from_shorthand", "helmholtz-roundtrip",
                        "%s-%d written %r read back %s-%d" % (n, o, Note(n, o).to_shorthand(), m.name, m.octave), (n, o))
+            # ... read by a note that held something else: it is THAT note which holds the name and octave afterwards
+            held = Note("F#", 6)
+            ok, back = R.guard("Note.from_shorthand", "helmholtz-roundtrip", (n, o, "receiver"),
+                               lambda: held.from_shorthand(Note(n, o).to_shorthand()))
+            if ok and (held.name, held.octave) != (n, o):
+                R.fail("Note.from_shorthand", "helmholtz-roundtrip",
+                       "a note F#-6 that read %r holds %s-%d afterwards" % (Note(n, o).to_shorthand(), held.name, held.octave),
+                       (n, o, "receiver"))
             # shape of the shorthand itself
             sh = Note(n, o).to_shorthand()
             want = (n if o < 3 else n.lower()) + ("," * (2 - o) if o < 2 else "'" * (o - 3) if o > 3 else "")
@@ -53,6 +61,10 @@ def run(tier, seed):
         b = Note().from_int(i)
         if int(b) != i or "b" in b.name[1:]:
             R.fail("Note.from_int", "int-roundtrip", "from_int(%d) -> %r" % (i, b), i)
+        held = Note("F#", 6)
+        held.from_int(i)
+        if int(held) != i:
+            R.fail("Note.from_int", "int-roundtrip", "a note F#-6 set from the integer %d holds %r" % (i, held), (i, "receiver"))
     # malformed names are rejected
     for bad in ["H", "c", "Cx", "", "C-x", "C-4-4", "H-4", "#", "1", "C%", "100%", "C%s", "C%23-4", "%d", "C{}", "{0}-4",
                 "C\n", "C#\n", "Bb\n-3", " C", "C ", "#C", "bE", "b#Gb-4", "C#x", "Cmaj", "G4", "-4", ",,", "C\\", "C'"]:
